@@ -82,6 +82,13 @@ Proof.
 Qed.
 End E.
 
+Lemma do_start_fields : forall s,
+  wks (do_start c s) = repeat WOuter (nw c) /\ disp (do_start c s) = DLoop /\ closed (do_start c s) = false /\
+  chanq (do_start c s) = [] /\ running (do_start c s) = true /\ writer (do_start c s) = writer s /\
+  startmx (do_start c s) = startmx s /\ queue (do_start c s) = queue s /\ pending (do_start c s) = pending s /\
+  exts (do_start c s) = exts s /\ acc (do_start c s) = acc s /\ ran (do_start c s) = ran s /\ canc (do_start c s) = canc s.
+Proof. intros s. unfold do_start. repeat split; reflexivity. Qed.
+
 Lemma dead_inf0 : forall i l, forallb is_dead l = true -> sumf (w_inf i) l = 0.
 Proof. induction l; simpl; intros; auto. apply andb_prop in H. destruct H as [H1 H2]. destruct a; try discriminate. simpl. auto. Qed.
 
@@ -100,7 +107,11 @@ Proof.
     destruct (iDead c s I (all_dead_exists _ NEq AD)) as [CL CH].
     pose proof (iClosed c s I CL) as DD.
     destruct I as [W0 M0 X L C D K P].
-    constructor; unfold do_start; proj; unfold inflight, rfree, all_dead in *; proj.
+    destruct (do_start_fields s) as (F1&F2&F3&F4&F5&F6&F7&F8&F9&F10&F11&F12&F13).
+    constructor; unfold set_exts; cbn [running readers writer startmx queue pending chanq closed tokens disp wks exts acc ran canc rej];
+      unfold inflight, rfree, all_dead in *;
+      rewrite ?F1, ?F2, ?F3, ?F4, ?F5, ?F6, ?F7, ?F8, ?F9, ?F10, ?F11, ?F12, ?F13;
+      cbn [running readers writer startmx queue pending chanq closed tokens disp wks exts acc ran canc rej].
     - sum_tac SU Hj.
     - sum_tac SU Hj.
     - intros j' e2 Hj' Hp. exfalso. destruct (Nat.eq_dec j' j) as [->|N].
